@@ -9,6 +9,7 @@ operations:
   ("fault", OP, FORBID)     for each occurrence k of OP: re-run with that occurrence failing;
                             the API call in flight must report an error and no FORBID event may
                             follow before it returns
+  ("api_ok", NAME)          the scenario's API line NAME must report ok=true
   ("on_thread_window", ACQ, REL, INSIDE, THREAD) every INSIDE event of THREAD lies inside an
                             ACQ..REL window of the same thread
 Events are written "op" or "op:path-suffix".
@@ -122,6 +123,9 @@ def confirm(rec, native, scratch, verif_root):
                     r = pred_between(ev, p[1], p[2])
                 elif p[0] == "fault":
                     r = pred_fault(exe, p[1], p[2])
+                elif p[0] == "api_ok":
+                    line = next((e for e in ev if e.get("api") == p[1]), None)
+                    r = {"violated": (line is None or not line["ok"]), "api": line}
                 elif p[0] == "on_thread_window":
                     r = pred_window(ev, p[1], p[2], p[3], p[4])
                 else:
